@@ -100,6 +100,10 @@ def b_int(I, a, k):
         return SInt(f(v.t))
     if isinstance(v, SVal):
         return val_int(I, v)
+    if isinstance(v, SOpt):
+        if I.st.branch(I.ops.is_none(v)):
+            I.raise_builtin("TypeError", "int() argument must be a string or a number, not 'NoneType'")
+        return b_int(I, [v.inner], k)
     raise Unsupported(f"int() of {type(v).__name__}")
 
 
@@ -116,6 +120,12 @@ def b_str(I, a, k):
     v = a[0]
     if isinstance(v, SStr):
         return v
+    if isinstance(v, SInt):
+        f = z3.Function("str_of_int", z3.IntSort(), z3.IntSort())
+        g = z3.Function("int_of_str", z3.IntSort(), z3.IntSort())
+        ok = z3.Function("str_is_int", z3.IntSort(), z3.BoolSort())
+        I.st.assume(z3.And(g(f(v.t)) == v.t, ok(f(v.t)), f(v.t) != EMPTY))
+        return SStr(f(v.t))
     if isinstance(v, SEnum):
         m = I.find_attr_in_class(v, "__str__")
         if m is not None:
@@ -730,6 +740,15 @@ def d_clear(I, a, k):
 
 # ---- str
 def s_join(I, a, k):
+    sep, it = a
+    try:
+        segs = I.iter_segments(it)
+    except Unsupported:
+        return I.ops.opaque_str("join")
+    if sep.lit is not None and all(isinstance(s, tuple) for s in segs):
+        items = [x for s in segs for x in s[1]]
+        if all(isinstance(x, SStr) and x.lit is not None for x in items):
+            return I.ops.lit(sep.lit.join(x.lit for x in items))
     return I.ops.opaque_str("join")
 
 
@@ -789,6 +808,11 @@ def s_decode(I, a, k):
 def i_total_seconds(I, a, k):
     # timedelta values are modelled as integer milliseconds
     return SFloat(z3.ToReal(I.ops.as_int(a[0])) / 1000)
+
+
+def i_isoformat(I, a, k):
+    # timestamps are integers; their ISO text is order-isomorphic (assumption: datetime() comparisons order ISO text)
+    return a[0]
 
 
 def i_bit_length(I, a, k):
